@@ -277,6 +277,8 @@ def judge_module_rule(ev: Event) -> None:
     if not ok_domain:
         if why == "anything-several-subjects" and ev.outcome in ("pass", "fail"):
             _judge_anything_batch(ev, mods, imps)
+        if why == "related-subjects-objects" and ev.outcome in ("pass", "fail"):
+            _judge_subject_inside_object(ev, mods, imps)
         return
     res = rrule.decide(mods, imps, cfg)
     if res is None:
@@ -324,6 +326,48 @@ def judge_module_rule(ev: Event) -> None:
                     "neg_expected": sorted(map(repr, exp_neg)),
                 },
             )
+
+
+def _judge_subject_inside_object(ev: Event, mods, imps) -> None:
+    """'X should (not) import / be imported by anything except P' where the single named subject X lies
+    inside an object P (every object is an ancestor of X or unrelated to it): 'something else' is
+    unambiguous - imports between S(X) and modules outside S(X) and outside all objects."""
+    cfg = ev.cfg
+    subs = [tuple(s) for s in cfg["subs"]]
+    objs = [tuple(o) for o in cfg["objs"]]
+    if cfg.get("anything") or not cfg["exc"] or cfg["verb"] not in ("should", "should_not") or len(subs) != 1:
+        return
+    if subs[0][0] != "named" or any(k != "named" for k, _ in objs):
+        return
+    x = subs[0][1]
+    names = [n for _, n in objs]
+    if x not in mods or any(n not in mods for n in names) or len(set(names)) != len(names):
+        return
+    from .refmodel.names import related
+
+    if not all(is_ancestor(n, x) or not related(n, x) for n in names) or not any(is_ancestor(n, x) for n in names):
+        return
+    if any(related(a, b) for i, a in enumerate(names) for b in names[i + 1 :]):
+        return
+    ss = rrule.sel(("named", x), mods)
+    oset = set().union(*[rrule.sel(("named", n), mods) for n in names])
+    if cfg["dir"] == "import":
+        oth = {(a, b) for a, b in imps if a in ss and b not in ss and b not in oset}
+    else:
+        oth = {(a, b) for a, b in imps if b in ss and a not in ss and a not in oset}
+    exp_ok = bool(oth) if cfg["verb"] == "should" else not oth
+    HUB.acc.count("subject_inside_object_judged")
+    w = {"cfg": cfg, "mods": sorted(mods), "imps": sorted(imps), "message": ev.message, "something_else": sorted(oth)}
+    got_ok = ev.outcome == "pass"
+    if got_ok != exp_ok and "C01" in HUB.judges:
+        HUB.violation("C01", f"verdict:{rrule.shape(cfg)}:subject-inside-object:{'false-pass' if got_ok else 'false-fail'}", f"rule whose subject lies inside an excepted object {'passed' if got_ok else 'failed'} although imports to/from something else {'exist' if oth else 'do not exist'}", w)
+    elif not got_ok and cfg["verb"] == "should_not" and "C03" in HUB.judges:
+        try:
+            pos, _neg = msgparse.parse_module_message(ev.message)
+        except msgparse.Unparseable:
+            return
+        if pos != oth:
+            HUB.violation("C03", f"report:{rrule.shape(cfg)}:subject-inside-object", "report differs from the imports to/from something else", dict(w, extra=sorted(pos - oth), missing=sorted(oth - pos)))
 
 
 def _judge_anything_batch(ev: Event, mods, imps) -> None:
